@@ -39,6 +39,7 @@ import (
 const (
 	cmChainID = "verif-chain"
 	cmDenom   = "uakt"
+	cmDenom2  = "stake" // a second denomination every actor holds; escrow accounts are never denominated in it
 )
 
 var cmStores = []string{"escrow", "deployment", "market", "provider", "audit", "cert"}
@@ -71,6 +72,8 @@ type cmSnap struct {
 	certs       []cmCert
 	bank        map[string]sdk.Int // bech32 -> uakt
 	escrowBank  sdk.Int
+	bank2       map[string]sdk.Int // bech32 -> cmDenom2
+	escrowBank2 sdk.Int
 	undecodable []string
 }
 
@@ -184,7 +187,7 @@ func cmNewApp(actors []*cmActor, p cmParams) *AkashApp {
 	total := sdk.NewCoins()
 	for i, a := range actors {
 		accs = append(accs, authtypes.NewBaseAccount(a.addr, a.priv.PubKey(), uint64(i), 0))
-		c := sdk.NewCoins(sdk.NewInt64Coin(cmDenom, 1_000_000_000_000))
+		c := sdk.NewCoins(sdk.NewInt64Coin(cmDenom, 1_000_000_000_000), sdk.NewInt64Coin(cmDenom2, 1_000_000_000_000))
 		balances = append(balances, banktypes.Balance{Address: a.bech, Coins: c})
 		total = total.Add(c...)
 	}
@@ -497,6 +500,11 @@ func (m *chainMachine) snapshot() *cmSnap {
 		s.bank[a.bech] = m.app.keeper.bank.GetBalance(ctx, a.addr, cmDenom).Amount
 	}
 	s.escrowBank = m.app.keeper.bank.GetBalance(ctx, m.app.keeper.acct.GetModuleAddress(etypes.ModuleName), cmDenom).Amount
+	s.bank2 = map[string]sdk.Int{}
+	for _, a := range m.actors {
+		s.bank2[a.bech] = m.app.keeper.bank.GetBalance(ctx, a.addr, cmDenom2).Amount
+	}
+	s.escrowBank2 = m.app.keeper.bank.GetBalance(ctx, m.app.keeper.acct.GetModuleAddress(etypes.ModuleName), cmDenom2).Amount
 	return s
 }
 
